@@ -1200,7 +1200,7 @@ def flavour_laws(ck, tier):
         taken += 1 if r['res'].get('flavour_marker') else 0
         keep = []
         for x in r['res']['reports']:
-            if x.rule == 'R03.7':
+            if x.rule in ('R03.7', 'R03.8'):
                 continue
             x.rule = 'R08.3'
             if not x.ok:
